@@ -49,7 +49,10 @@ func TestC04Diff(t *testing.T) {
 // renderers): every numeric verb x flags x widths and precisions up to a
 // few hundred x operands at the edges of the code-point and integer ranges.
 var c04NumInts = []int64{0, 1, -1, 7, 10, 65, 127, 128, 255, 0xe9, 0x2039, 0x203a, 0x4e16, 0xD7FF, 0xD800, 0xDFFF, 0xE000, 0xFFFD, 0xFFFF, 0x10000, 0x1F600, 0x1F9FF,
-	0x10FFFF, 0x110000, 1 << 31, -(1 << 31), 1<<63 - 1, -1 << 63, 1234567890123456789}
+	0x10FFFF, 0x110000, 1 << 31, -(1 << 31), 1<<63 - 1, -1 << 63, 1234567890123456789,
+	// beyond 32 bits with a low half that is a printable code point; Unicode class edges
+	1<<32 + 'A', 1<<32 + 0x203a, 1<<40 + 'a', -(1 << 32) + 'A', 1<<31 + 'A', 1<<32 + 0x1F600,
+	0xA0, 0xAD, 0x7F, 0x85, 0x1680, 0x2000, 0x200B, 0x2028, 0x202F, 0x3000, 0xFEFF, 0x0378}
 var c04NumWP = []string{"", "", "", "0", "1", "2", "5", "8", "20", "59", "60", "61", "64", "65", "100", "127", "128", "129", "300", "1000"}
 
 func TestC04Num(t *testing.T) {
